@@ -33,7 +33,10 @@ def make(ns, pid, py=None, c=None, level="proof"):
         if "py" in mods:
             mods["py"].build_py(run)
         if "c" in mods:
-            mods["c"].build_c(run)
+            # the C driver wraps its own sections (engine.cvc.contract.sect); this outer wrap only catches what escapes them, so that a C part
+            # that cannot be bound to a refactored file leaves the Python part's proof standing (the bounded native oracle stands in for the C half)
+            from engine.cvc.contract import sect
+            sect(run, "%s C part (%s)" % (pid, c), mods["c"].build_c, run)
 
     def witness(o, model):
         m = mods[side_of(o.tag)]
